@@ -86,6 +86,8 @@ func CheckCall(sc *Scenario, v *CallView, rs RuleSet, em int) []Violation {
 				if c.Req != nil {
 					val = c.Req.ID
 				}
+			case RetUnexp:
+				returned = false
 			case RetNestedB:
 				returned = x.RetTrue
 			case RetKind:
@@ -130,6 +132,15 @@ func CheckCall(sc *Scenario, v *CallView, rs RuleSet, em int) []Violation {
 			}
 			if x.Ended && len(x.Sames) == 0 {
 				add("local-lost", "", fmt.Sprintf("%s: rule %d assigned x but could not read it back", c, x.Rule))
+			}
+		}
+	}
+
+	// --- a forRange loop key is a local too (C15)
+	for _, x := range v.Execs {
+		for _, e := range x.Own {
+			if e.Kind == EvKey && e.C != int64(x.Rule)+700 {
+				add("local-changed-by-other-execution", "forRange-key", fmt.Sprintf("%s: rule %d iterates its own one-entry map (key %d) and its loop body saw key %d", c, x.Rule, x.Rule+700, e.C))
 			}
 		}
 	}
